@@ -91,5 +91,681 @@ pub mod utils { pub mod serde_workaround {
 //@   rule R33
 //@   rule R36
 //@   rule R37
+
+// ---- C13 "deserialising those bytes yields an equal message": what `serialize` writes for q, presented on input (`wire_of`), has no
+// duplicates, has every required member, and each member's entry decodes to q's member (an absent optional member is absent and q's
+// member is its default, None).  With `visit_map`'s contract: a sound input of that shape is accepted and the message read equals q.
+// (proved by cases over which optional members are present)
+proof fn lemma_round_trip_11(q: Response)
+    requires q.credential is Some && q.user is Some
+    ensures ({ let e = wire_of(ctap_entries(q)); let n = e.len() as int;
+        &&& dup_free(e, n)
+        &&& q.credential == (match member::<Option<PublicKeyCredentialDescriptor>>(e, n, Ident::credential) { Some(x) => x, None => <Option<PublicKeyCredentialDescriptor> as VxDefault>::vx_default() })
+        &&& member::<AuthenticatorData>(e, n, Ident::auth_data) == Some(q.auth_data)
+        &&& member::<Bytes>(e, n, Ident::signature) == Some(q.signature)
+        &&& q.user == (match member::<Option<PublicKeyCredentialUserEntity>>(e, n, Ident::user) { Some(x) => x, None => <Option<PublicKeyCredentialUserEntity> as VxDefault>::vx_default() })
+        &&& q.number_of_credentials == (match member::<Option<u8>>(e, n, Ident::number_of_credentials) { Some(x) => x, None => <Option<u8> as VxDefault>::vx_default() })
+        &&& q.user_selected == (match member::<Option<bool>>(e, n, Ident::user_selected) { Some(x) => x, None => <Option<bool> as VxDefault>::vx_default() })
+        &&& q.large_blob_key == (match member::<Option<Bytes>>(e, n, Ident::large_blob_key) { Some(x) => x, None => <Option<Bytes> as VxDefault>::vx_default() })
+        &&& q.unsigned_extension_outputs == (match member::<Option<UnsignedExtensionOutputs>>(e, n, Ident::unsigned_extension_outputs) { Some(x) => x, None => <Option<UnsignedExtensionOutputs> as VxDefault>::vx_default() })
+    })
+{
+    broadcast use axiom_member_round_trip;
+    reveal_with_fuel(occ, 10);
+    reveal_with_fuel(dup_free, 10);
+    let e = wire_of(ctap_entries(q));
+    assert(e.len() == ctap_entries(q).len());
+    if q.number_of_credentials is Some {
+        if q.user_selected is Some {
+            if q.large_blob_key is Some {
+                if q.unsigned_extension_outputs is Some {
+                    assert(ctap_entries(q).len() == 8);
+                    assert(e[0] == (DeKey::U(1), ser_leaf(q.credential)));
+                    assert(e[1] == (DeKey::U(2), ser_leaf(q.auth_data)));
+                    assert(e[2] == (DeKey::U(3), ser_leaf(q.signature)));
+                    assert(e[3] == (DeKey::U(4), ser_leaf(q.user)));
+                    assert(e[4] == (DeKey::U(5), ser_leaf(q.number_of_credentials)));
+                    assert(e[5] == (DeKey::U(6), ser_leaf(q.user_selected)));
+                    assert(e[6] == (DeKey::U(7), ser_leaf(q.large_blob_key)));
+                    assert(e[7] == (DeKey::U(8), ser_leaf(q.unsigned_extension_outputs)));
+                } else {
+                    assert(ctap_entries(q).len() == 7);
+                    assert(e[0] == (DeKey::U(1), ser_leaf(q.credential)));
+                    assert(e[1] == (DeKey::U(2), ser_leaf(q.auth_data)));
+                    assert(e[2] == (DeKey::U(3), ser_leaf(q.signature)));
+                    assert(e[3] == (DeKey::U(4), ser_leaf(q.user)));
+                    assert(e[4] == (DeKey::U(5), ser_leaf(q.number_of_credentials)));
+                    assert(e[5] == (DeKey::U(6), ser_leaf(q.user_selected)));
+                    assert(e[6] == (DeKey::U(7), ser_leaf(q.large_blob_key)));
+                }
+            } else {
+                if q.unsigned_extension_outputs is Some {
+                    assert(ctap_entries(q).len() == 7);
+                    assert(e[0] == (DeKey::U(1), ser_leaf(q.credential)));
+                    assert(e[1] == (DeKey::U(2), ser_leaf(q.auth_data)));
+                    assert(e[2] == (DeKey::U(3), ser_leaf(q.signature)));
+                    assert(e[3] == (DeKey::U(4), ser_leaf(q.user)));
+                    assert(e[4] == (DeKey::U(5), ser_leaf(q.number_of_credentials)));
+                    assert(e[5] == (DeKey::U(6), ser_leaf(q.user_selected)));
+                    assert(e[6] == (DeKey::U(8), ser_leaf(q.unsigned_extension_outputs)));
+                } else {
+                    assert(ctap_entries(q).len() == 6);
+                    assert(e[0] == (DeKey::U(1), ser_leaf(q.credential)));
+                    assert(e[1] == (DeKey::U(2), ser_leaf(q.auth_data)));
+                    assert(e[2] == (DeKey::U(3), ser_leaf(q.signature)));
+                    assert(e[3] == (DeKey::U(4), ser_leaf(q.user)));
+                    assert(e[4] == (DeKey::U(5), ser_leaf(q.number_of_credentials)));
+                    assert(e[5] == (DeKey::U(6), ser_leaf(q.user_selected)));
+                }
+            }
+        } else {
+            if q.large_blob_key is Some {
+                if q.unsigned_extension_outputs is Some {
+                    assert(ctap_entries(q).len() == 7);
+                    assert(e[0] == (DeKey::U(1), ser_leaf(q.credential)));
+                    assert(e[1] == (DeKey::U(2), ser_leaf(q.auth_data)));
+                    assert(e[2] == (DeKey::U(3), ser_leaf(q.signature)));
+                    assert(e[3] == (DeKey::U(4), ser_leaf(q.user)));
+                    assert(e[4] == (DeKey::U(5), ser_leaf(q.number_of_credentials)));
+                    assert(e[5] == (DeKey::U(7), ser_leaf(q.large_blob_key)));
+                    assert(e[6] == (DeKey::U(8), ser_leaf(q.unsigned_extension_outputs)));
+                } else {
+                    assert(ctap_entries(q).len() == 6);
+                    assert(e[0] == (DeKey::U(1), ser_leaf(q.credential)));
+                    assert(e[1] == (DeKey::U(2), ser_leaf(q.auth_data)));
+                    assert(e[2] == (DeKey::U(3), ser_leaf(q.signature)));
+                    assert(e[3] == (DeKey::U(4), ser_leaf(q.user)));
+                    assert(e[4] == (DeKey::U(5), ser_leaf(q.number_of_credentials)));
+                    assert(e[5] == (DeKey::U(7), ser_leaf(q.large_blob_key)));
+                }
+            } else {
+                if q.unsigned_extension_outputs is Some {
+                    assert(ctap_entries(q).len() == 6);
+                    assert(e[0] == (DeKey::U(1), ser_leaf(q.credential)));
+                    assert(e[1] == (DeKey::U(2), ser_leaf(q.auth_data)));
+                    assert(e[2] == (DeKey::U(3), ser_leaf(q.signature)));
+                    assert(e[3] == (DeKey::U(4), ser_leaf(q.user)));
+                    assert(e[4] == (DeKey::U(5), ser_leaf(q.number_of_credentials)));
+                    assert(e[5] == (DeKey::U(8), ser_leaf(q.unsigned_extension_outputs)));
+                } else {
+                    assert(ctap_entries(q).len() == 5);
+                    assert(e[0] == (DeKey::U(1), ser_leaf(q.credential)));
+                    assert(e[1] == (DeKey::U(2), ser_leaf(q.auth_data)));
+                    assert(e[2] == (DeKey::U(3), ser_leaf(q.signature)));
+                    assert(e[3] == (DeKey::U(4), ser_leaf(q.user)));
+                    assert(e[4] == (DeKey::U(5), ser_leaf(q.number_of_credentials)));
+                }
+            }
+        }
+    } else {
+        if q.user_selected is Some {
+            if q.large_blob_key is Some {
+                if q.unsigned_extension_outputs is Some {
+                    assert(ctap_entries(q).len() == 7);
+                    assert(e[0] == (DeKey::U(1), ser_leaf(q.credential)));
+                    assert(e[1] == (DeKey::U(2), ser_leaf(q.auth_data)));
+                    assert(e[2] == (DeKey::U(3), ser_leaf(q.signature)));
+                    assert(e[3] == (DeKey::U(4), ser_leaf(q.user)));
+                    assert(e[4] == (DeKey::U(6), ser_leaf(q.user_selected)));
+                    assert(e[5] == (DeKey::U(7), ser_leaf(q.large_blob_key)));
+                    assert(e[6] == (DeKey::U(8), ser_leaf(q.unsigned_extension_outputs)));
+                } else {
+                    assert(ctap_entries(q).len() == 6);
+                    assert(e[0] == (DeKey::U(1), ser_leaf(q.credential)));
+                    assert(e[1] == (DeKey::U(2), ser_leaf(q.auth_data)));
+                    assert(e[2] == (DeKey::U(3), ser_leaf(q.signature)));
+                    assert(e[3] == (DeKey::U(4), ser_leaf(q.user)));
+                    assert(e[4] == (DeKey::U(6), ser_leaf(q.user_selected)));
+                    assert(e[5] == (DeKey::U(7), ser_leaf(q.large_blob_key)));
+                }
+            } else {
+                if q.unsigned_extension_outputs is Some {
+                    assert(ctap_entries(q).len() == 6);
+                    assert(e[0] == (DeKey::U(1), ser_leaf(q.credential)));
+                    assert(e[1] == (DeKey::U(2), ser_leaf(q.auth_data)));
+                    assert(e[2] == (DeKey::U(3), ser_leaf(q.signature)));
+                    assert(e[3] == (DeKey::U(4), ser_leaf(q.user)));
+                    assert(e[4] == (DeKey::U(6), ser_leaf(q.user_selected)));
+                    assert(e[5] == (DeKey::U(8), ser_leaf(q.unsigned_extension_outputs)));
+                } else {
+                    assert(ctap_entries(q).len() == 5);
+                    assert(e[0] == (DeKey::U(1), ser_leaf(q.credential)));
+                    assert(e[1] == (DeKey::U(2), ser_leaf(q.auth_data)));
+                    assert(e[2] == (DeKey::U(3), ser_leaf(q.signature)));
+                    assert(e[3] == (DeKey::U(4), ser_leaf(q.user)));
+                    assert(e[4] == (DeKey::U(6), ser_leaf(q.user_selected)));
+                }
+            }
+        } else {
+            if q.large_blob_key is Some {
+                if q.unsigned_extension_outputs is Some {
+                    assert(ctap_entries(q).len() == 6);
+                    assert(e[0] == (DeKey::U(1), ser_leaf(q.credential)));
+                    assert(e[1] == (DeKey::U(2), ser_leaf(q.auth_data)));
+                    assert(e[2] == (DeKey::U(3), ser_leaf(q.signature)));
+                    assert(e[3] == (DeKey::U(4), ser_leaf(q.user)));
+                    assert(e[4] == (DeKey::U(7), ser_leaf(q.large_blob_key)));
+                    assert(e[5] == (DeKey::U(8), ser_leaf(q.unsigned_extension_outputs)));
+                } else {
+                    assert(ctap_entries(q).len() == 5);
+                    assert(e[0] == (DeKey::U(1), ser_leaf(q.credential)));
+                    assert(e[1] == (DeKey::U(2), ser_leaf(q.auth_data)));
+                    assert(e[2] == (DeKey::U(3), ser_leaf(q.signature)));
+                    assert(e[3] == (DeKey::U(4), ser_leaf(q.user)));
+                    assert(e[4] == (DeKey::U(7), ser_leaf(q.large_blob_key)));
+                }
+            } else {
+                if q.unsigned_extension_outputs is Some {
+                    assert(ctap_entries(q).len() == 5);
+                    assert(e[0] == (DeKey::U(1), ser_leaf(q.credential)));
+                    assert(e[1] == (DeKey::U(2), ser_leaf(q.auth_data)));
+                    assert(e[2] == (DeKey::U(3), ser_leaf(q.signature)));
+                    assert(e[3] == (DeKey::U(4), ser_leaf(q.user)));
+                    assert(e[4] == (DeKey::U(8), ser_leaf(q.unsigned_extension_outputs)));
+                } else {
+                    assert(ctap_entries(q).len() == 4);
+                    assert(e[0] == (DeKey::U(1), ser_leaf(q.credential)));
+                    assert(e[1] == (DeKey::U(2), ser_leaf(q.auth_data)));
+                    assert(e[2] == (DeKey::U(3), ser_leaf(q.signature)));
+                    assert(e[3] == (DeKey::U(4), ser_leaf(q.user)));
+                }
+            }
+        }
+    }
+}
+proof fn lemma_round_trip_10(q: Response)
+    requires q.credential is Some && q.user is None
+    ensures ({ let e = wire_of(ctap_entries(q)); let n = e.len() as int;
+        &&& dup_free(e, n)
+        &&& q.credential == (match member::<Option<PublicKeyCredentialDescriptor>>(e, n, Ident::credential) { Some(x) => x, None => <Option<PublicKeyCredentialDescriptor> as VxDefault>::vx_default() })
+        &&& member::<AuthenticatorData>(e, n, Ident::auth_data) == Some(q.auth_data)
+        &&& member::<Bytes>(e, n, Ident::signature) == Some(q.signature)
+        &&& q.user == (match member::<Option<PublicKeyCredentialUserEntity>>(e, n, Ident::user) { Some(x) => x, None => <Option<PublicKeyCredentialUserEntity> as VxDefault>::vx_default() })
+        &&& q.number_of_credentials == (match member::<Option<u8>>(e, n, Ident::number_of_credentials) { Some(x) => x, None => <Option<u8> as VxDefault>::vx_default() })
+        &&& q.user_selected == (match member::<Option<bool>>(e, n, Ident::user_selected) { Some(x) => x, None => <Option<bool> as VxDefault>::vx_default() })
+        &&& q.large_blob_key == (match member::<Option<Bytes>>(e, n, Ident::large_blob_key) { Some(x) => x, None => <Option<Bytes> as VxDefault>::vx_default() })
+        &&& q.unsigned_extension_outputs == (match member::<Option<UnsignedExtensionOutputs>>(e, n, Ident::unsigned_extension_outputs) { Some(x) => x, None => <Option<UnsignedExtensionOutputs> as VxDefault>::vx_default() })
+    })
+{
+    broadcast use axiom_member_round_trip;
+    reveal_with_fuel(occ, 10);
+    reveal_with_fuel(dup_free, 10);
+    let e = wire_of(ctap_entries(q));
+    assert(e.len() == ctap_entries(q).len());
+    if q.number_of_credentials is Some {
+        if q.user_selected is Some {
+            if q.large_blob_key is Some {
+                if q.unsigned_extension_outputs is Some {
+                    assert(ctap_entries(q).len() == 7);
+                    assert(e[0] == (DeKey::U(1), ser_leaf(q.credential)));
+                    assert(e[1] == (DeKey::U(2), ser_leaf(q.auth_data)));
+                    assert(e[2] == (DeKey::U(3), ser_leaf(q.signature)));
+                    assert(e[3] == (DeKey::U(5), ser_leaf(q.number_of_credentials)));
+                    assert(e[4] == (DeKey::U(6), ser_leaf(q.user_selected)));
+                    assert(e[5] == (DeKey::U(7), ser_leaf(q.large_blob_key)));
+                    assert(e[6] == (DeKey::U(8), ser_leaf(q.unsigned_extension_outputs)));
+                } else {
+                    assert(ctap_entries(q).len() == 6);
+                    assert(e[0] == (DeKey::U(1), ser_leaf(q.credential)));
+                    assert(e[1] == (DeKey::U(2), ser_leaf(q.auth_data)));
+                    assert(e[2] == (DeKey::U(3), ser_leaf(q.signature)));
+                    assert(e[3] == (DeKey::U(5), ser_leaf(q.number_of_credentials)));
+                    assert(e[4] == (DeKey::U(6), ser_leaf(q.user_selected)));
+                    assert(e[5] == (DeKey::U(7), ser_leaf(q.large_blob_key)));
+                }
+            } else {
+                if q.unsigned_extension_outputs is Some {
+                    assert(ctap_entries(q).len() == 6);
+                    assert(e[0] == (DeKey::U(1), ser_leaf(q.credential)));
+                    assert(e[1] == (DeKey::U(2), ser_leaf(q.auth_data)));
+                    assert(e[2] == (DeKey::U(3), ser_leaf(q.signature)));
+                    assert(e[3] == (DeKey::U(5), ser_leaf(q.number_of_credentials)));
+                    assert(e[4] == (DeKey::U(6), ser_leaf(q.user_selected)));
+                    assert(e[5] == (DeKey::U(8), ser_leaf(q.unsigned_extension_outputs)));
+                } else {
+                    assert(ctap_entries(q).len() == 5);
+                    assert(e[0] == (DeKey::U(1), ser_leaf(q.credential)));
+                    assert(e[1] == (DeKey::U(2), ser_leaf(q.auth_data)));
+                    assert(e[2] == (DeKey::U(3), ser_leaf(q.signature)));
+                    assert(e[3] == (DeKey::U(5), ser_leaf(q.number_of_credentials)));
+                    assert(e[4] == (DeKey::U(6), ser_leaf(q.user_selected)));
+                }
+            }
+        } else {
+            if q.large_blob_key is Some {
+                if q.unsigned_extension_outputs is Some {
+                    assert(ctap_entries(q).len() == 6);
+                    assert(e[0] == (DeKey::U(1), ser_leaf(q.credential)));
+                    assert(e[1] == (DeKey::U(2), ser_leaf(q.auth_data)));
+                    assert(e[2] == (DeKey::U(3), ser_leaf(q.signature)));
+                    assert(e[3] == (DeKey::U(5), ser_leaf(q.number_of_credentials)));
+                    assert(e[4] == (DeKey::U(7), ser_leaf(q.large_blob_key)));
+                    assert(e[5] == (DeKey::U(8), ser_leaf(q.unsigned_extension_outputs)));
+                } else {
+                    assert(ctap_entries(q).len() == 5);
+                    assert(e[0] == (DeKey::U(1), ser_leaf(q.credential)));
+                    assert(e[1] == (DeKey::U(2), ser_leaf(q.auth_data)));
+                    assert(e[2] == (DeKey::U(3), ser_leaf(q.signature)));
+                    assert(e[3] == (DeKey::U(5), ser_leaf(q.number_of_credentials)));
+                    assert(e[4] == (DeKey::U(7), ser_leaf(q.large_blob_key)));
+                }
+            } else {
+                if q.unsigned_extension_outputs is Some {
+                    assert(ctap_entries(q).len() == 5);
+                    assert(e[0] == (DeKey::U(1), ser_leaf(q.credential)));
+                    assert(e[1] == (DeKey::U(2), ser_leaf(q.auth_data)));
+                    assert(e[2] == (DeKey::U(3), ser_leaf(q.signature)));
+                    assert(e[3] == (DeKey::U(5), ser_leaf(q.number_of_credentials)));
+                    assert(e[4] == (DeKey::U(8), ser_leaf(q.unsigned_extension_outputs)));
+                } else {
+                    assert(ctap_entries(q).len() == 4);
+                    assert(e[0] == (DeKey::U(1), ser_leaf(q.credential)));
+                    assert(e[1] == (DeKey::U(2), ser_leaf(q.auth_data)));
+                    assert(e[2] == (DeKey::U(3), ser_leaf(q.signature)));
+                    assert(e[3] == (DeKey::U(5), ser_leaf(q.number_of_credentials)));
+                }
+            }
+        }
+    } else {
+        if q.user_selected is Some {
+            if q.large_blob_key is Some {
+                if q.unsigned_extension_outputs is Some {
+                    assert(ctap_entries(q).len() == 6);
+                    assert(e[0] == (DeKey::U(1), ser_leaf(q.credential)));
+                    assert(e[1] == (DeKey::U(2), ser_leaf(q.auth_data)));
+                    assert(e[2] == (DeKey::U(3), ser_leaf(q.signature)));
+                    assert(e[3] == (DeKey::U(6), ser_leaf(q.user_selected)));
+                    assert(e[4] == (DeKey::U(7), ser_leaf(q.large_blob_key)));
+                    assert(e[5] == (DeKey::U(8), ser_leaf(q.unsigned_extension_outputs)));
+                } else {
+                    assert(ctap_entries(q).len() == 5);
+                    assert(e[0] == (DeKey::U(1), ser_leaf(q.credential)));
+                    assert(e[1] == (DeKey::U(2), ser_leaf(q.auth_data)));
+                    assert(e[2] == (DeKey::U(3), ser_leaf(q.signature)));
+                    assert(e[3] == (DeKey::U(6), ser_leaf(q.user_selected)));
+                    assert(e[4] == (DeKey::U(7), ser_leaf(q.large_blob_key)));
+                }
+            } else {
+                if q.unsigned_extension_outputs is Some {
+                    assert(ctap_entries(q).len() == 5);
+                    assert(e[0] == (DeKey::U(1), ser_leaf(q.credential)));
+                    assert(e[1] == (DeKey::U(2), ser_leaf(q.auth_data)));
+                    assert(e[2] == (DeKey::U(3), ser_leaf(q.signature)));
+                    assert(e[3] == (DeKey::U(6), ser_leaf(q.user_selected)));
+                    assert(e[4] == (DeKey::U(8), ser_leaf(q.unsigned_extension_outputs)));
+                } else {
+                    assert(ctap_entries(q).len() == 4);
+                    assert(e[0] == (DeKey::U(1), ser_leaf(q.credential)));
+                    assert(e[1] == (DeKey::U(2), ser_leaf(q.auth_data)));
+                    assert(e[2] == (DeKey::U(3), ser_leaf(q.signature)));
+                    assert(e[3] == (DeKey::U(6), ser_leaf(q.user_selected)));
+                }
+            }
+        } else {
+            if q.large_blob_key is Some {
+                if q.unsigned_extension_outputs is Some {
+                    assert(ctap_entries(q).len() == 5);
+                    assert(e[0] == (DeKey::U(1), ser_leaf(q.credential)));
+                    assert(e[1] == (DeKey::U(2), ser_leaf(q.auth_data)));
+                    assert(e[2] == (DeKey::U(3), ser_leaf(q.signature)));
+                    assert(e[3] == (DeKey::U(7), ser_leaf(q.large_blob_key)));
+                    assert(e[4] == (DeKey::U(8), ser_leaf(q.unsigned_extension_outputs)));
+                } else {
+                    assert(ctap_entries(q).len() == 4);
+                    assert(e[0] == (DeKey::U(1), ser_leaf(q.credential)));
+                    assert(e[1] == (DeKey::U(2), ser_leaf(q.auth_data)));
+                    assert(e[2] == (DeKey::U(3), ser_leaf(q.signature)));
+                    assert(e[3] == (DeKey::U(7), ser_leaf(q.large_blob_key)));
+                }
+            } else {
+                if q.unsigned_extension_outputs is Some {
+                    assert(ctap_entries(q).len() == 4);
+                    assert(e[0] == (DeKey::U(1), ser_leaf(q.credential)));
+                    assert(e[1] == (DeKey::U(2), ser_leaf(q.auth_data)));
+                    assert(e[2] == (DeKey::U(3), ser_leaf(q.signature)));
+                    assert(e[3] == (DeKey::U(8), ser_leaf(q.unsigned_extension_outputs)));
+                } else {
+                    assert(ctap_entries(q).len() == 3);
+                    assert(e[0] == (DeKey::U(1), ser_leaf(q.credential)));
+                    assert(e[1] == (DeKey::U(2), ser_leaf(q.auth_data)));
+                    assert(e[2] == (DeKey::U(3), ser_leaf(q.signature)));
+                }
+            }
+        }
+    }
+}
+proof fn lemma_round_trip_01(q: Response)
+    requires q.credential is None && q.user is Some
+    ensures ({ let e = wire_of(ctap_entries(q)); let n = e.len() as int;
+        &&& dup_free(e, n)
+        &&& q.credential == (match member::<Option<PublicKeyCredentialDescriptor>>(e, n, Ident::credential) { Some(x) => x, None => <Option<PublicKeyCredentialDescriptor> as VxDefault>::vx_default() })
+        &&& member::<AuthenticatorData>(e, n, Ident::auth_data) == Some(q.auth_data)
+        &&& member::<Bytes>(e, n, Ident::signature) == Some(q.signature)
+        &&& q.user == (match member::<Option<PublicKeyCredentialUserEntity>>(e, n, Ident::user) { Some(x) => x, None => <Option<PublicKeyCredentialUserEntity> as VxDefault>::vx_default() })
+        &&& q.number_of_credentials == (match member::<Option<u8>>(e, n, Ident::number_of_credentials) { Some(x) => x, None => <Option<u8> as VxDefault>::vx_default() })
+        &&& q.user_selected == (match member::<Option<bool>>(e, n, Ident::user_selected) { Some(x) => x, None => <Option<bool> as VxDefault>::vx_default() })
+        &&& q.large_blob_key == (match member::<Option<Bytes>>(e, n, Ident::large_blob_key) { Some(x) => x, None => <Option<Bytes> as VxDefault>::vx_default() })
+        &&& q.unsigned_extension_outputs == (match member::<Option<UnsignedExtensionOutputs>>(e, n, Ident::unsigned_extension_outputs) { Some(x) => x, None => <Option<UnsignedExtensionOutputs> as VxDefault>::vx_default() })
+    })
+{
+    broadcast use axiom_member_round_trip;
+    reveal_with_fuel(occ, 10);
+    reveal_with_fuel(dup_free, 10);
+    let e = wire_of(ctap_entries(q));
+    assert(e.len() == ctap_entries(q).len());
+    if q.number_of_credentials is Some {
+        if q.user_selected is Some {
+            if q.large_blob_key is Some {
+                if q.unsigned_extension_outputs is Some {
+                    assert(ctap_entries(q).len() == 7);
+                    assert(e[0] == (DeKey::U(2), ser_leaf(q.auth_data)));
+                    assert(e[1] == (DeKey::U(3), ser_leaf(q.signature)));
+                    assert(e[2] == (DeKey::U(4), ser_leaf(q.user)));
+                    assert(e[3] == (DeKey::U(5), ser_leaf(q.number_of_credentials)));
+                    assert(e[4] == (DeKey::U(6), ser_leaf(q.user_selected)));
+                    assert(e[5] == (DeKey::U(7), ser_leaf(q.large_blob_key)));
+                    assert(e[6] == (DeKey::U(8), ser_leaf(q.unsigned_extension_outputs)));
+                } else {
+                    assert(ctap_entries(q).len() == 6);
+                    assert(e[0] == (DeKey::U(2), ser_leaf(q.auth_data)));
+                    assert(e[1] == (DeKey::U(3), ser_leaf(q.signature)));
+                    assert(e[2] == (DeKey::U(4), ser_leaf(q.user)));
+                    assert(e[3] == (DeKey::U(5), ser_leaf(q.number_of_credentials)));
+                    assert(e[4] == (DeKey::U(6), ser_leaf(q.user_selected)));
+                    assert(e[5] == (DeKey::U(7), ser_leaf(q.large_blob_key)));
+                }
+            } else {
+                if q.unsigned_extension_outputs is Some {
+                    assert(ctap_entries(q).len() == 6);
+                    assert(e[0] == (DeKey::U(2), ser_leaf(q.auth_data)));
+                    assert(e[1] == (DeKey::U(3), ser_leaf(q.signature)));
+                    assert(e[2] == (DeKey::U(4), ser_leaf(q.user)));
+                    assert(e[3] == (DeKey::U(5), ser_leaf(q.number_of_credentials)));
+                    assert(e[4] == (DeKey::U(6), ser_leaf(q.user_selected)));
+                    assert(e[5] == (DeKey::U(8), ser_leaf(q.unsigned_extension_outputs)));
+                } else {
+                    assert(ctap_entries(q).len() == 5);
+                    assert(e[0] == (DeKey::U(2), ser_leaf(q.auth_data)));
+                    assert(e[1] == (DeKey::U(3), ser_leaf(q.signature)));
+                    assert(e[2] == (DeKey::U(4), ser_leaf(q.user)));
+                    assert(e[3] == (DeKey::U(5), ser_leaf(q.number_of_credentials)));
+                    assert(e[4] == (DeKey::U(6), ser_leaf(q.user_selected)));
+                }
+            }
+        } else {
+            if q.large_blob_key is Some {
+                if q.unsigned_extension_outputs is Some {
+                    assert(ctap_entries(q).len() == 6);
+                    assert(e[0] == (DeKey::U(2), ser_leaf(q.auth_data)));
+                    assert(e[1] == (DeKey::U(3), ser_leaf(q.signature)));
+                    assert(e[2] == (DeKey::U(4), ser_leaf(q.user)));
+                    assert(e[3] == (DeKey::U(5), ser_leaf(q.number_of_credentials)));
+                    assert(e[4] == (DeKey::U(7), ser_leaf(q.large_blob_key)));
+                    assert(e[5] == (DeKey::U(8), ser_leaf(q.unsigned_extension_outputs)));
+                } else {
+                    assert(ctap_entries(q).len() == 5);
+                    assert(e[0] == (DeKey::U(2), ser_leaf(q.auth_data)));
+                    assert(e[1] == (DeKey::U(3), ser_leaf(q.signature)));
+                    assert(e[2] == (DeKey::U(4), ser_leaf(q.user)));
+                    assert(e[3] == (DeKey::U(5), ser_leaf(q.number_of_credentials)));
+                    assert(e[4] == (DeKey::U(7), ser_leaf(q.large_blob_key)));
+                }
+            } else {
+                if q.unsigned_extension_outputs is Some {
+                    assert(ctap_entries(q).len() == 5);
+                    assert(e[0] == (DeKey::U(2), ser_leaf(q.auth_data)));
+                    assert(e[1] == (DeKey::U(3), ser_leaf(q.signature)));
+                    assert(e[2] == (DeKey::U(4), ser_leaf(q.user)));
+                    assert(e[3] == (DeKey::U(5), ser_leaf(q.number_of_credentials)));
+                    assert(e[4] == (DeKey::U(8), ser_leaf(q.unsigned_extension_outputs)));
+                } else {
+                    assert(ctap_entries(q).len() == 4);
+                    assert(e[0] == (DeKey::U(2), ser_leaf(q.auth_data)));
+                    assert(e[1] == (DeKey::U(3), ser_leaf(q.signature)));
+                    assert(e[2] == (DeKey::U(4), ser_leaf(q.user)));
+                    assert(e[3] == (DeKey::U(5), ser_leaf(q.number_of_credentials)));
+                }
+            }
+        }
+    } else {
+        if q.user_selected is Some {
+            if q.large_blob_key is Some {
+                if q.unsigned_extension_outputs is Some {
+                    assert(ctap_entries(q).len() == 6);
+                    assert(e[0] == (DeKey::U(2), ser_leaf(q.auth_data)));
+                    assert(e[1] == (DeKey::U(3), ser_leaf(q.signature)));
+                    assert(e[2] == (DeKey::U(4), ser_leaf(q.user)));
+                    assert(e[3] == (DeKey::U(6), ser_leaf(q.user_selected)));
+                    assert(e[4] == (DeKey::U(7), ser_leaf(q.large_blob_key)));
+                    assert(e[5] == (DeKey::U(8), ser_leaf(q.unsigned_extension_outputs)));
+                } else {
+                    assert(ctap_entries(q).len() == 5);
+                    assert(e[0] == (DeKey::U(2), ser_leaf(q.auth_data)));
+                    assert(e[1] == (DeKey::U(3), ser_leaf(q.signature)));
+                    assert(e[2] == (DeKey::U(4), ser_leaf(q.user)));
+                    assert(e[3] == (DeKey::U(6), ser_leaf(q.user_selected)));
+                    assert(e[4] == (DeKey::U(7), ser_leaf(q.large_blob_key)));
+                }
+            } else {
+                if q.unsigned_extension_outputs is Some {
+                    assert(ctap_entries(q).len() == 5);
+                    assert(e[0] == (DeKey::U(2), ser_leaf(q.auth_data)));
+                    assert(e[1] == (DeKey::U(3), ser_leaf(q.signature)));
+                    assert(e[2] == (DeKey::U(4), ser_leaf(q.user)));
+                    assert(e[3] == (DeKey::U(6), ser_leaf(q.user_selected)));
+                    assert(e[4] == (DeKey::U(8), ser_leaf(q.unsigned_extension_outputs)));
+                } else {
+                    assert(ctap_entries(q).len() == 4);
+                    assert(e[0] == (DeKey::U(2), ser_leaf(q.auth_data)));
+                    assert(e[1] == (DeKey::U(3), ser_leaf(q.signature)));
+                    assert(e[2] == (DeKey::U(4), ser_leaf(q.user)));
+                    assert(e[3] == (DeKey::U(6), ser_leaf(q.user_selected)));
+                }
+            }
+        } else {
+            if q.large_blob_key is Some {
+                if q.unsigned_extension_outputs is Some {
+                    assert(ctap_entries(q).len() == 5);
+                    assert(e[0] == (DeKey::U(2), ser_leaf(q.auth_data)));
+                    assert(e[1] == (DeKey::U(3), ser_leaf(q.signature)));
+                    assert(e[2] == (DeKey::U(4), ser_leaf(q.user)));
+                    assert(e[3] == (DeKey::U(7), ser_leaf(q.large_blob_key)));
+                    assert(e[4] == (DeKey::U(8), ser_leaf(q.unsigned_extension_outputs)));
+                } else {
+                    assert(ctap_entries(q).len() == 4);
+                    assert(e[0] == (DeKey::U(2), ser_leaf(q.auth_data)));
+                    assert(e[1] == (DeKey::U(3), ser_leaf(q.signature)));
+                    assert(e[2] == (DeKey::U(4), ser_leaf(q.user)));
+                    assert(e[3] == (DeKey::U(7), ser_leaf(q.large_blob_key)));
+                }
+            } else {
+                if q.unsigned_extension_outputs is Some {
+                    assert(ctap_entries(q).len() == 4);
+                    assert(e[0] == (DeKey::U(2), ser_leaf(q.auth_data)));
+                    assert(e[1] == (DeKey::U(3), ser_leaf(q.signature)));
+                    assert(e[2] == (DeKey::U(4), ser_leaf(q.user)));
+                    assert(e[3] == (DeKey::U(8), ser_leaf(q.unsigned_extension_outputs)));
+                } else {
+                    assert(ctap_entries(q).len() == 3);
+                    assert(e[0] == (DeKey::U(2), ser_leaf(q.auth_data)));
+                    assert(e[1] == (DeKey::U(3), ser_leaf(q.signature)));
+                    assert(e[2] == (DeKey::U(4), ser_leaf(q.user)));
+                }
+            }
+        }
+    }
+}
+proof fn lemma_round_trip_00(q: Response)
+    requires q.credential is None && q.user is None
+    ensures ({ let e = wire_of(ctap_entries(q)); let n = e.len() as int;
+        &&& dup_free(e, n)
+        &&& q.credential == (match member::<Option<PublicKeyCredentialDescriptor>>(e, n, Ident::credential) { Some(x) => x, None => <Option<PublicKeyCredentialDescriptor> as VxDefault>::vx_default() })
+        &&& member::<AuthenticatorData>(e, n, Ident::auth_data) == Some(q.auth_data)
+        &&& member::<Bytes>(e, n, Ident::signature) == Some(q.signature)
+        &&& q.user == (match member::<Option<PublicKeyCredentialUserEntity>>(e, n, Ident::user) { Some(x) => x, None => <Option<PublicKeyCredentialUserEntity> as VxDefault>::vx_default() })
+        &&& q.number_of_credentials == (match member::<Option<u8>>(e, n, Ident::number_of_credentials) { Some(x) => x, None => <Option<u8> as VxDefault>::vx_default() })
+        &&& q.user_selected == (match member::<Option<bool>>(e, n, Ident::user_selected) { Some(x) => x, None => <Option<bool> as VxDefault>::vx_default() })
+        &&& q.large_blob_key == (match member::<Option<Bytes>>(e, n, Ident::large_blob_key) { Some(x) => x, None => <Option<Bytes> as VxDefault>::vx_default() })
+        &&& q.unsigned_extension_outputs == (match member::<Option<UnsignedExtensionOutputs>>(e, n, Ident::unsigned_extension_outputs) { Some(x) => x, None => <Option<UnsignedExtensionOutputs> as VxDefault>::vx_default() })
+    })
+{
+    broadcast use axiom_member_round_trip;
+    reveal_with_fuel(occ, 10);
+    reveal_with_fuel(dup_free, 10);
+    let e = wire_of(ctap_entries(q));
+    assert(e.len() == ctap_entries(q).len());
+    if q.number_of_credentials is Some {
+        if q.user_selected is Some {
+            if q.large_blob_key is Some {
+                if q.unsigned_extension_outputs is Some {
+                    assert(ctap_entries(q).len() == 6);
+                    assert(e[0] == (DeKey::U(2), ser_leaf(q.auth_data)));
+                    assert(e[1] == (DeKey::U(3), ser_leaf(q.signature)));
+                    assert(e[2] == (DeKey::U(5), ser_leaf(q.number_of_credentials)));
+                    assert(e[3] == (DeKey::U(6), ser_leaf(q.user_selected)));
+                    assert(e[4] == (DeKey::U(7), ser_leaf(q.large_blob_key)));
+                    assert(e[5] == (DeKey::U(8), ser_leaf(q.unsigned_extension_outputs)));
+                } else {
+                    assert(ctap_entries(q).len() == 5);
+                    assert(e[0] == (DeKey::U(2), ser_leaf(q.auth_data)));
+                    assert(e[1] == (DeKey::U(3), ser_leaf(q.signature)));
+                    assert(e[2] == (DeKey::U(5), ser_leaf(q.number_of_credentials)));
+                    assert(e[3] == (DeKey::U(6), ser_leaf(q.user_selected)));
+                    assert(e[4] == (DeKey::U(7), ser_leaf(q.large_blob_key)));
+                }
+            } else {
+                if q.unsigned_extension_outputs is Some {
+                    assert(ctap_entries(q).len() == 5);
+                    assert(e[0] == (DeKey::U(2), ser_leaf(q.auth_data)));
+                    assert(e[1] == (DeKey::U(3), ser_leaf(q.signature)));
+                    assert(e[2] == (DeKey::U(5), ser_leaf(q.number_of_credentials)));
+                    assert(e[3] == (DeKey::U(6), ser_leaf(q.user_selected)));
+                    assert(e[4] == (DeKey::U(8), ser_leaf(q.unsigned_extension_outputs)));
+                } else {
+                    assert(ctap_entries(q).len() == 4);
+                    assert(e[0] == (DeKey::U(2), ser_leaf(q.auth_data)));
+                    assert(e[1] == (DeKey::U(3), ser_leaf(q.signature)));
+                    assert(e[2] == (DeKey::U(5), ser_leaf(q.number_of_credentials)));
+                    assert(e[3] == (DeKey::U(6), ser_leaf(q.user_selected)));
+                }
+            }
+        } else {
+            if q.large_blob_key is Some {
+                if q.unsigned_extension_outputs is Some {
+                    assert(ctap_entries(q).len() == 5);
+                    assert(e[0] == (DeKey::U(2), ser_leaf(q.auth_data)));
+                    assert(e[1] == (DeKey::U(3), ser_leaf(q.signature)));
+                    assert(e[2] == (DeKey::U(5), ser_leaf(q.number_of_credentials)));
+                    assert(e[3] == (DeKey::U(7), ser_leaf(q.large_blob_key)));
+                    assert(e[4] == (DeKey::U(8), ser_leaf(q.unsigned_extension_outputs)));
+                } else {
+                    assert(ctap_entries(q).len() == 4);
+                    assert(e[0] == (DeKey::U(2), ser_leaf(q.auth_data)));
+                    assert(e[1] == (DeKey::U(3), ser_leaf(q.signature)));
+                    assert(e[2] == (DeKey::U(5), ser_leaf(q.number_of_credentials)));
+                    assert(e[3] == (DeKey::U(7), ser_leaf(q.large_blob_key)));
+                }
+            } else {
+                if q.unsigned_extension_outputs is Some {
+                    assert(ctap_entries(q).len() == 4);
+                    assert(e[0] == (DeKey::U(2), ser_leaf(q.auth_data)));
+                    assert(e[1] == (DeKey::U(3), ser_leaf(q.signature)));
+                    assert(e[2] == (DeKey::U(5), ser_leaf(q.number_of_credentials)));
+                    assert(e[3] == (DeKey::U(8), ser_leaf(q.unsigned_extension_outputs)));
+                } else {
+                    assert(ctap_entries(q).len() == 3);
+                    assert(e[0] == (DeKey::U(2), ser_leaf(q.auth_data)));
+                    assert(e[1] == (DeKey::U(3), ser_leaf(q.signature)));
+                    assert(e[2] == (DeKey::U(5), ser_leaf(q.number_of_credentials)));
+                }
+            }
+        }
+    } else {
+        if q.user_selected is Some {
+            if q.large_blob_key is Some {
+                if q.unsigned_extension_outputs is Some {
+                    assert(ctap_entries(q).len() == 5);
+                    assert(e[0] == (DeKey::U(2), ser_leaf(q.auth_data)));
+                    assert(e[1] == (DeKey::U(3), ser_leaf(q.signature)));
+                    assert(e[2] == (DeKey::U(6), ser_leaf(q.user_selected)));
+                    assert(e[3] == (DeKey::U(7), ser_leaf(q.large_blob_key)));
+                    assert(e[4] == (DeKey::U(8), ser_leaf(q.unsigned_extension_outputs)));
+                } else {
+                    assert(ctap_entries(q).len() == 4);
+                    assert(e[0] == (DeKey::U(2), ser_leaf(q.auth_data)));
+                    assert(e[1] == (DeKey::U(3), ser_leaf(q.signature)));
+                    assert(e[2] == (DeKey::U(6), ser_leaf(q.user_selected)));
+                    assert(e[3] == (DeKey::U(7), ser_leaf(q.large_blob_key)));
+                }
+            } else {
+                if q.unsigned_extension_outputs is Some {
+                    assert(ctap_entries(q).len() == 4);
+                    assert(e[0] == (DeKey::U(2), ser_leaf(q.auth_data)));
+                    assert(e[1] == (DeKey::U(3), ser_leaf(q.signature)));
+                    assert(e[2] == (DeKey::U(6), ser_leaf(q.user_selected)));
+                    assert(e[3] == (DeKey::U(8), ser_leaf(q.unsigned_extension_outputs)));
+                } else {
+                    assert(ctap_entries(q).len() == 3);
+                    assert(e[0] == (DeKey::U(2), ser_leaf(q.auth_data)));
+                    assert(e[1] == (DeKey::U(3), ser_leaf(q.signature)));
+                    assert(e[2] == (DeKey::U(6), ser_leaf(q.user_selected)));
+                }
+            }
+        } else {
+            if q.large_blob_key is Some {
+                if q.unsigned_extension_outputs is Some {
+                    assert(ctap_entries(q).len() == 4);
+                    assert(e[0] == (DeKey::U(2), ser_leaf(q.auth_data)));
+                    assert(e[1] == (DeKey::U(3), ser_leaf(q.signature)));
+                    assert(e[2] == (DeKey::U(7), ser_leaf(q.large_blob_key)));
+                    assert(e[3] == (DeKey::U(8), ser_leaf(q.unsigned_extension_outputs)));
+                } else {
+                    assert(ctap_entries(q).len() == 3);
+                    assert(e[0] == (DeKey::U(2), ser_leaf(q.auth_data)));
+                    assert(e[1] == (DeKey::U(3), ser_leaf(q.signature)));
+                    assert(e[2] == (DeKey::U(7), ser_leaf(q.large_blob_key)));
+                }
+            } else {
+                if q.unsigned_extension_outputs is Some {
+                    assert(ctap_entries(q).len() == 3);
+                    assert(e[0] == (DeKey::U(2), ser_leaf(q.auth_data)));
+                    assert(e[1] == (DeKey::U(3), ser_leaf(q.signature)));
+                    assert(e[2] == (DeKey::U(8), ser_leaf(q.unsigned_extension_outputs)));
+                } else {
+                    assert(ctap_entries(q).len() == 2);
+                    assert(e[0] == (DeKey::U(2), ser_leaf(q.auth_data)));
+                    assert(e[1] == (DeKey::U(3), ser_leaf(q.signature)));
+                }
+            }
+        }
+    }
+}
+pub proof fn lemma_round_trip(q: Response)
+    ensures ({ let e = wire_of(ctap_entries(q)); let n = e.len() as int;
+        &&& dup_free(e, n)
+        &&& q.credential == (match member::<Option<PublicKeyCredentialDescriptor>>(e, n, Ident::credential) { Some(x) => x, None => <Option<PublicKeyCredentialDescriptor> as VxDefault>::vx_default() })
+        &&& member::<AuthenticatorData>(e, n, Ident::auth_data) == Some(q.auth_data)
+        &&& member::<Bytes>(e, n, Ident::signature) == Some(q.signature)
+        &&& q.user == (match member::<Option<PublicKeyCredentialUserEntity>>(e, n, Ident::user) { Some(x) => x, None => <Option<PublicKeyCredentialUserEntity> as VxDefault>::vx_default() })
+        &&& q.number_of_credentials == (match member::<Option<u8>>(e, n, Ident::number_of_credentials) { Some(x) => x, None => <Option<u8> as VxDefault>::vx_default() })
+        &&& q.user_selected == (match member::<Option<bool>>(e, n, Ident::user_selected) { Some(x) => x, None => <Option<bool> as VxDefault>::vx_default() })
+        &&& q.large_blob_key == (match member::<Option<Bytes>>(e, n, Ident::large_blob_key) { Some(x) => x, None => <Option<Bytes> as VxDefault>::vx_default() })
+        &&& q.unsigned_extension_outputs == (match member::<Option<UnsignedExtensionOutputs>>(e, n, Ident::unsigned_extension_outputs) { Some(x) => x, None => <Option<UnsignedExtensionOutputs> as VxDefault>::vx_default() })
+    })
+{
+    if q.credential is Some {
+        if q.user is Some {
+            lemma_round_trip_11(q);
+        } else {
+            lemma_round_trip_10(q);
+        }
+    } else {
+        if q.user is Some {
+            lemma_round_trip_01(q);
+        } else {
+            lemma_round_trip_00(q);
+        }
+    }
+}
 } // verus!
 fn main() {}
